@@ -211,3 +211,476 @@ def generate_formulas(src):
     spans.update({k: ("grid3Scales.py",) + tuple(v) for k, v in gr.spans.items()})
     asserts["grid3Scales"] = gr.asserts
     return "\n".join(out) + "\n", spans, asserts
+
+
+# =====================================================================================
+# (b) tolerance sites: dimensional analysis of the AST
+# =====================================================================================
+
+SITE_FILES = ["equationOfMotion.py", "hydrodynamics.py", "hydrodynamicsTemplateModel.py",
+              "thermodynamics.py", "freeEnergy.py", "effectivePotential.py", "manager.py"]
+SIG_FILES = SITE_FILES + ["grid3Scales.py", "results.py"]
+
+# Reviewed naming table: identifier (variable, parameter, attribute or method name; the LAST
+# component of a dotted name) -> mass dimension.  First matching regex wins; per-file
+# entries come before the common ones.  Names that match nothing have unknown dimension
+# and never produce a site on their own.
+T1 = 1      # temperatures, field values
+DIMS = {
+    "equationOfMotion.py": [
+        (r"meanFreePathScale$", -1),             # converted by the manager (divided by Tnucl)
+        (r"wallThicknessBounds$|wallOffsetBounds$", 0),   # config, in units of 1/Tnucl / widths
+        (r"pressAbsErrTol$", 4),
+        (r"\.errTol$", 0),                       # the attribute: dimensionless configuration
+        (r"^(atol|errTol)$", None),              # locals of wallPressure (inferred)
+        (r"pressRelErrTol$|rtol$", 0),
+    ],
+    "manager.py": [
+        (r"meanFreePathScale$|wallThickness(Ini|Guess)?$", 0),   # user input in units of 1/Tnucl
+        (r"tailLength$", -1),
+        (r"(initial|grid)MomentumFalloffScale$", 1),
+    ],
+    "hydrodynamics.py": [(r"atol$|rtol$", 0), (r"_mappingT$", 0)],
+    # the template model works with enthalpies normalised to w(Tn): dimensionless
+    "hydrodynamicsTemplateModel.py": [(r"atol$|rtol$", 0), (r"^w[pm]?$|^wN$|wFromAlpha$", None),
+                                      (r"(lower|upper)Limit$", 0)],
+    "effectivePotential.py": [(r"^tol$", 0), (r"[gG]uess$", 1)],
+    "freeEnergy.py": [(r"tolAbsolute$", 1), (r"(rTol|extraTol)$", 0)],
+    "grid3Scales.py": [(r"(tailLength(Inside|Outside)|wallThickness|wallCenter)$", -1),
+                       (r"momentumFalloffT$", 1)],
+    "*": [
+        # dimensionless by name although they start like a temperature / pressure
+        (r"TMultiplier$|multiplier$|success|^i$|index$|nbrFields$|^n$|^N$|^M$|^tmin$|^tmax$|"
+         r"pressRelErrTol$", 0),
+        # energy-momentum tensor components, pressures, energy densities, potential
+        (r"^Tout3[03]$|^T3[03]$|^c[12]$|^s[12]$|[pP]ressure\w*$|^press\w*$|enthalpy$|"
+         r"^veff\w*$|^[pew](High|Low)T$|^(p|e|w)(Low|High)$|kineticTerm$|^[pew][pm]$|"
+         r"effectivePotentialError$|^(evaluate|veffValue)$", 4),
+        (r"^d[pe](High|Low)T$|derivT$", 3),
+        (r"^dd[pe](High|Low)T$", 2),
+        # temperatures and fields
+        (r"^T$|^T[pmn]$|^T[npm0-9]?[A-Z_]\w*$|^T(plus|minus|nucl|min|max|mid)\w*$|"
+         r"[tT]emperature\w*$|[tT]emp(At\w*)?$|^testTemp$|^dT$|^T0$|^Tm0$|^Tp0$|"
+         r"^t[nm]$", T1),
+        (r"^TM(in|ax)\w*$|^T(Low|High)T\w*$|^Tc$|^Tspin\w*$", T1),
+        (r"^fields?$|^phi\w*$|^vev\w*$|phase(0|Location\d?)$|fieldsAtMinimum$", T1),
+        (r"^dPhidz$|^dfieldsdz$", 2),
+        # lengths
+        (r"^widths?$|wallThickness(Grid)?$|wallCenter(Grid)?$|^tail(Inside|Outside)$|"
+         r"^wallWidths?$|^z$|^xiValues$|^chiValues$|tailLength\w*$", -1),
+        # dimensionless: velocities, ratios, strengths, similarity coordinate, offsets
+        (r"^v$|^v[wpmJ]\w*$|^vmin$|^vmax$|^vMin$|^vMax$|^vBracket\w*$|[vV]elocity\w*$|^xi$|"
+         r"^offsets?$|^al\w*$|^alpha$|^csq\w*$|^cs2$|^cb2$|^mu$|^nu$|^psiN$|^gamma\w*$|"
+         r"[rR][tT]ol$|^smoothing$|^ratioPointsWall$|^wallOffsets?$", 0),
+    ],
+}
+
+TOL_KW = ("xtol", "atol", "tol", "abstol", "absTol")
+REDUCE0 = {"exp", "log", "tanh", "cosh", "sinh", "arctanh", "arctan", "tan", "sign", "cos",
+           "sin", "isscalar", "isnan", "isfinite", "len", "all", "any", "allclose"}
+SAME = {"abs", "float", "asarray", "array", "absolute", "squeeze", "real", "copy", "min",
+        "max", "minimum", "maximum", "fmin", "fmax", "sum", "mean", "atleast_1d", "sort",
+        "amax", "amin"}
+
+
+class _Unknown:
+    def __repr__(self):
+        return "?"
+
+
+class DimCheck:
+    def __init__(self, sources):
+        self.src = sources
+        self.sites = {}
+        self.order = []
+        self.sigs = {}
+        for f in SIG_FILES:
+            if f not in sources:
+                continue
+            tree = ast.parse(sources[f])
+            for n in tree.body:
+                if isinstance(n, ast.ClassDef):
+                    for m in n.body:
+                        if isinstance(m, ast.FunctionDef):
+                            ps = [a.arg for a in m.args.args if a.arg != "self"]
+                            if m.name == "__init__":
+                                self.sigs.setdefault(n.name, []).append((f, ps))
+                            self.sigs.setdefault(m.name, []).append((f, ps))
+
+    # ---- table
+    def table(self, file, name, attr=False):
+        """`attr`: the name is the last component of a dotted name; a regex may ask for
+        that with a leading `\\.`"""
+        for key in (file, "*"):
+            for rx, d in DIMS.get(key, []):
+                if (attr and re.search(rx, "." + name)) or re.search(rx, name):
+                    return d
+        return None
+
+    def site(self, kind, text, dim):
+        text = " ".join(text.split())
+        if len(text) > 70:
+            text = text[:67] + "..."
+        if isinstance(dim, tuple):
+            dim = None
+        if isinstance(dim, Fraction):
+            dim = int(dim) if dim.denominator == 1 else None
+        key = (self.file, self.fun, kind, text, dim)
+        if key not in self.sites:
+            self.sites[key] = 0
+            self.order.append(key)
+        self.sites[key] += 1
+
+    # ---- driver
+    def run(self):
+        for f in SITE_FILES:
+            self.file = f
+            tree = ast.parse(self.src[f])
+            for n in tree.body:
+                if isinstance(n, ast.ClassDef):
+                    for m in n.body:
+                        if isinstance(m, ast.FunctionDef):
+                            self.function(m, n.name + "." + m.name, {})
+                elif isinstance(n, ast.FunctionDef):
+                    self.function(n, n.name, {})
+        return [k + (self.sites[k],) for k in self.order]
+
+    def function(self, fn, qual, outer):
+        saved = getattr(self, "fun", None)
+        self.fun = qual
+        env = dict(outer)
+        for a in fn.args.args + fn.args.kwonlyargs:
+            env.pop(a.arg, None)
+        # default values: a literal default of a dimensionful parameter is a site
+        ps = fn.args.args
+        for a, d in zip(ps[len(ps) - len(fn.args.defaults):], fn.args.defaults):
+            dd = self.table(self.file, a.arg)
+            dv = self.dim(d, env)
+            if dd not in (None, 0) and dv == 0 and not is_zero(d):
+                self.site("default", "%s=%s" % (a.arg, ast.unparse(d)), dd)
+        self.stmts(fn.body, env, qual)
+        self.fun = saved
+
+    def stmts(self, body, env, qual):
+        for st in body:
+            self.stmt(st, env, qual)
+
+    def stmt(self, st, env, qual):
+        if isinstance(st, ast.FunctionDef):
+            self.function(st, qual + "." + st.name, env)
+        elif isinstance(st, (ast.Assign, ast.AnnAssign)):
+            if st.value is None:
+                return
+            targets = st.targets if isinstance(st, ast.Assign) else [st.target]
+            dv = self.dim(st.value, env)
+            for tg in targets:
+                self.assign(tg, st.value, dv, env)
+        elif isinstance(st, ast.AugAssign):
+            dt = self.dim(_as_load(st.target), env)
+            dv = self.dim(st.value, env)
+            if isinstance(st.op, (ast.Add, ast.Sub)):
+                self.agree("add", dt, dv, st.target, st.value)
+        elif isinstance(st, (ast.If, ast.While)):
+            self.dim(st.test, env)
+            self.stmts(st.body, env, qual)
+            self.stmts(st.orelse, env, qual)
+        elif isinstance(st, ast.For):
+            self.dim(st.iter, env)
+            self.stmts(st.body, env, qual)
+            self.stmts(st.orelse, env, qual)
+        elif isinstance(st, ast.With):
+            self.stmts(st.body, env, qual)
+        elif isinstance(st, ast.Try):
+            self.stmts(st.body, env, qual)
+            for h in st.handlers:
+                self.stmts(h.body, env, qual)
+            self.stmts(st.orelse, env, qual)
+            self.stmts(st.finalbody, env, qual)
+        elif isinstance(st, (ast.Return, ast.Expr)):
+            if st.value is not None:
+                self.dim(st.value, env)
+        elif isinstance(st, ast.Assert):
+            self.dim(st.test, env)
+
+    def assign(self, tg, value, dv, env):
+        if isinstance(tg, (ast.Tuple, ast.List)):
+            if isinstance(value, (ast.Tuple, ast.List)) and len(value.elts) == len(tg.elts):
+                for t, v in zip(tg.elts, value.elts):
+                    self.assign(t, v, self.dim(v, env), env)
+            else:
+                for t in tg.elts:
+                    if isinstance(t, ast.Name):
+                        env.pop(t.id, None)
+            return
+        name = tg.id if isinstance(tg, ast.Name) else tg.attr if isinstance(
+            tg, ast.Attribute) else None
+        if name is None:
+            return
+        if is_zero(value):
+            dv = None           # the literal 0 has every dimension
+        declared = self.table(self.file, name, attr=isinstance(tg, ast.Attribute))
+        if declared is not None and dv is not None and not isinstance(dv, tuple) \
+                and dv != declared and not is_zero(value):
+            self.site("assign", "%s = %s" % (name, ast.unparse(value)), declared)
+        if isinstance(tg, ast.Name):
+            if declared is not None:
+                env[tg.id] = declared
+            elif dv is not None:
+                env[tg.id] = dv
+            else:
+                env.pop(tg.id, None)
+
+    def agree(self, kind, da, db, na, nb):
+        """both known and different -> site; returns the common dimension"""
+        za, zb = is_zero(na), is_zero(nb)
+        if za:
+            return db
+        if zb:
+            return da
+        if da is None:
+            return db
+        if db is None:
+            return da
+        if da != db:
+            if db == 0:
+                self.site(kind, ast.unparse(nb), da)
+            elif da == 0:
+                self.site(kind, ast.unparse(na), db)
+            else:
+                self.site(kind, "%s ~ %s" % (ast.unparse(na), ast.unparse(nb)), None)
+            return None
+        return da
+
+    # ---- expressions
+    def dim(self, n, env):
+        if isinstance(n, ast.Constant):
+            return 0 if isinstance(n.value, (int, float)) and not isinstance(
+                n.value, bool) else None
+        if isinstance(n, ast.Name):
+            if n.id in env:
+                return env[n.id]
+            return self.table(self.file, n.id)
+        if isinstance(n, ast.Attribute):
+            self.dim(n.value, env) if isinstance(n.value, ast.Call) else None
+            if n.attr in ("x", "root", "fun", "real", "T", "y", "t"):
+                return None
+            return self.table(self.file, n.attr, attr=True)
+        if isinstance(n, ast.UnaryOp):
+            return self.dim(n.operand, env)
+        if isinstance(n, ast.BinOp):
+            if isinstance(n.op, ast.Mult) and isinstance(n.left, ast.List):
+                self.dim(n.right, env)
+                return self.dim(n.left, env)
+            if isinstance(n.op, ast.Mult) and isinstance(n.right, ast.List):
+                self.dim(n.left, env)
+                return self.dim(n.right, env)
+            a, b = self.dim(n.left, env), self.dim(n.right, env)
+            if isinstance(a, tuple) or isinstance(b, tuple):
+                return None
+            if isinstance(n.op, (ast.Add, ast.Sub)):
+                return self.agree("add", a, b, n.left, n.right)
+            if isinstance(n.op, ast.Mult):
+                if is_zero(n.left) or is_zero(n.right):
+                    return 0
+                return None if a is None or b is None else a + b
+            if isinstance(n.op, ast.Div):
+                return None if a is None or b is None else a - b
+            if isinstance(n.op, ast.Pow):
+                c = pyrx.const_value(n.right)
+                if a is None:
+                    return None
+                if c is not None:
+                    return a * c
+                return 0 if a == 0 else None
+            return None
+        if isinstance(n, ast.BoolOp):
+            for v in n.values:
+                self.dim(v, env)
+            return 0
+        if isinstance(n, ast.Compare):
+            left = n.left
+            dl = self.dim(left, env)
+            for c in n.comparators:
+                dc = self.dim(c, env)
+                if not isinstance(dl, tuple) and not isinstance(dc, tuple):
+                    self.agree("cmp", dl, dc, left, c)
+                left, dl = c, dc
+            return 0
+        if isinstance(n, ast.IfExp):
+            self.dim(n.test, env)
+            a, b = self.dim(n.body, env), self.dim(n.orelse, env)
+            if isinstance(a, tuple) or isinstance(b, tuple):
+                return None
+            return self.agree("branch", a, b, n.body, n.orelse)
+        if isinstance(n, (ast.List, ast.Tuple)):
+            ds = [None if is_zero(e) else self.dim(e, env) for e in n.elts]
+            return vec(ds)
+        if isinstance(n, ast.Subscript):
+            d = self.dim(n.value, env)
+            self.dim(n.slice, env) if not isinstance(n.slice, ast.Slice) else None
+            if isinstance(d, tuple):
+                c = pyrx.const_value(n.slice)
+                if c is not None and c.denominator == 1 and -len(d) <= int(c) < len(d):
+                    return d[int(c)]
+                return None
+            return d
+        if isinstance(n, ast.Lambda):
+            e2 = dict(env)
+            for a in n.args.args:
+                e2.pop(a.arg, None)
+            self.dim(n.body, e2)
+            return None
+        if isinstance(n, ast.Call):
+            return self.call(n, env)
+        if isinstance(n, ast.Dict):
+            for v in n.values:
+                self.dim(v, env)
+            return None
+        if isinstance(n, (ast.ListComp, ast.GeneratorExp)):
+            return None
+        if isinstance(n, ast.JoinedStr):
+            return None
+        if isinstance(n, ast.Starred):
+            return self.dim(n.value, env)
+        return None
+
+    def call(self, n, env):
+        f = n.func
+        fname = f.id if isinstance(f, ast.Name) else f.attr if isinstance(
+            f, ast.Attribute) else None
+        if isinstance(f, ast.Attribute):
+            self.dim(f.value, env) if isinstance(f.value, ast.Call) else None
+        argd = [self.dim(a, env) for a in n.args]
+        kwd = {k.arg: (k.value, self.dim(k.value, env)) for k in n.keywords if k.arg}
+        # -- absolute tolerance keywords
+        tol = [(k, v) for k, v in kwd.items() if k in TOL_KW]
+        opt = kwd.get("options")
+        if opt and isinstance(opt[0], ast.Dict):
+            for kk, vv in zip(opt[0].keys, opt[0].values):
+                if isinstance(kk, ast.Constant) and kk.value in TOL_KW:
+                    tol.append((kk.value, (vv, self.dim(vv, env))))
+        if tol:
+            ud = _Unknown
+            for key in ("bracket", "x0", "x1", "bounds"):
+                if key in kwd and kwd[key][1] is not None:
+                    ud = kwd[key][1]
+                    break
+            else:
+                if fname in ("solve_ivp",) and len(argd) >= 3:
+                    ud = argd[2]
+                elif fname in ("minimize", "root", "fsolve", "minimize_scalar") and \
+                        len(argd) >= 2:
+                    ud = argd[1]
+                elif fname in ("allclose", "isclose") and argd:
+                    ud = argd[0]
+            if ud is _Unknown:
+                ud = None
+            for k, (vn, vd) in tol:
+                # calls of WallGo's own functions only pass the tolerance on (their
+                # parameters are checked against the naming table below)
+                if is_zero(vn) or vd is None or fname in self.sigs:
+                    continue
+                if isinstance(ud, tuple) or ud is None or ud != vd:
+                    self.site("xtol", "%s(%s=%s)" % (fname, k, ast.unparse(vn)),
+                              None if isinstance(ud, tuple) else ud)
+        # -- bounds / start vector
+        if fname == "Bounds":
+            lb = kwd.get("lb", (None, argd[0] if argd else None))[1]
+            ub = kwd.get("ub", (None, argd[1] if len(argd) > 1 else None))[1]
+            if lb is not None and ub is not None and lb != ub:
+                self.site("bounds", "Bounds(lb~%s, ub~%s)" % (fmt(lb), fmt(ub)), None)
+            return lb if lb is not None else ub
+        if "bounds" in kwd and len(argd) >= 2 and fname in ("minimize",):
+            b, x0 = kwd["bounds"][1], argd[1]
+            if b is not None and x0 is not None and b != x0:
+                self.site("bounds", "%s(x0~%s, bounds~%s)" % (fname, fmt(x0), fmt(b)), None)
+        # -- arguments against the callee's declared parameter dimensions
+        sig = self.sigs.get(fname)
+        if sig and len(sig) == 1:
+            cfile, ps = sig[0]
+            pairs = list(zip(ps, zip(n.args, argd)))
+            pairs += [(k, v) for k, v in kwd.items() if k in ps]
+            for p, (an, ad) in pairs:
+                if isinstance(an, ast.Starred):
+                    break
+                pd = self.table(cfile, p)
+                if pd is not None and ad is not None and not isinstance(ad, tuple) and \
+                        pd != ad and not is_zero(an):
+                    self.site("arg", "%s(%s=%s)" % (fname, p, ast.unparse(an)), pd)
+        # -- result dimension
+        if fname in ("concatenate", "hstack") and n.args and isinstance(
+                n.args[0], (ast.Tuple, ast.List)):
+            out = []
+            for e in n.args[0].elts:
+                d = self.dim(e, env) if False else None
+            parts = argd[0] if isinstance(argd[0], tuple) else (argd[0],)
+            return vec(list(parts))
+        if fname in REDUCE0:
+            return 0
+        if fname == "sqrt" and argd:
+            return None if argd[0] is None or isinstance(argd[0], tuple) else \
+                Fraction(argd[0]) / 2
+        if fname in ("clip",) and len(argd) == 3:
+            for i in (1, 2):
+                if not isinstance(argd[0], tuple) and not isinstance(argd[i], tuple):
+                    self.agree("branch", argd[0], argd[i], n.args[0], n.args[i])
+            return argd[0]
+        if fname in SAME and argd:
+            d = argd[0]
+            if fname in ("min", "max", "minimum", "maximum", "fmin", "fmax") and \
+                    len(argd) == 2 and not isinstance(argd[0], tuple) and \
+                    not isinstance(argd[1], tuple):
+                return self.agree("branch", argd[0], argd[1], n.args[0], n.args[1])
+            return d
+        if fname in ("zeros", "ones", "linspace", "range", "arange", "empty"):
+            return None
+        if fname is not None:
+            return self.table(self.file, fname)
+        return None
+
+
+def vec(ds):
+    flat = []
+    for d in ds:
+        flat.extend(d if isinstance(d, tuple) else [d])
+    known = [d for d in flat if d is not None]
+    if not known:
+        return None
+    if all(d == known[0] for d in known):
+        return known[0]
+    return tuple(flat)
+
+
+def fmt(d):
+    return str(list(d)) if isinstance(d, tuple) else str(d)
+
+
+def is_zero(n):
+    c = pyrx.const_value(n) if isinstance(n, ast.AST) else None
+    return c is not None and c == 0
+
+
+def _as_load(t):
+    return ast.parse(ast.unparse(t), mode="eval").body
+
+
+def tolerance_sites(sources):
+    """list of (file, function, kind, text, dim|None, count), in order of appearance"""
+    return DimCheck(sources).run()
+
+
+def coq_string(s):
+    return '"' + s.replace('"', '""') + '"'
+
+
+def sites_coq(sites):
+    rows = []
+    for f, fn, kind, text, dim, cnt in sites:
+        d = "None" if dim is None else "(Some (%d)%%Z)" % dim
+        rows.append("  mk_site %s %s %s %s %s %d" % (
+            coq_string(f), coq_string(fn), coq_string(kind), coq_string(text), d, cnt))
+    return ("From Coq Require Import List String ZArith.\n"
+            "From WG Require Import Lib.Units.\nImport ListNotations.\n"
+            "Local Open Scope string_scope.\n"
+            "(* generated by tools/gen_units.py (dimensional analysis of the AST) *)\n"
+            "Definition sites : list site := [\n" + ";\n".join(rows) + "\n].\n")
